@@ -1,5 +1,6 @@
 import AsherahVerif.Proofs.EnvResHist
 import AsherahVerif.Proofs.EnvResLog
+import AsherahVerif.Proofs.EnvResRoleHist
 /-
 C03 — envelope discipline: a fresh random DRK per write; keys wrapped only by their parent.
 
@@ -69,37 +70,47 @@ theorem names_never_reused (t : Int) (ops : List Op) :
 
 /-! ### wrap_discipline -/
 
-/-- how a key material came into being (ghost classification). -/
-inductive Role | data | intermediate (partition : Nat) | system
-deriving DecidableEq, Repr
+/-- **wrap_discipline**: for every history (any operations, any faults, any cache policies, no
+well-formedness needed) there is one classification `ρ` of the key materials by the place where
+`CreateRandom` handed them out — `Role.data` (the DRK of an `EncryptPayload`), `Role.intermediate p`
+(a new intermediate key of partition `p`), `Role.system` (a new system key); `ρ` is built along the
+history and never revised — such that
 
-/-- **wrap_discipline, full form** (not proved): there is a classification `ρ` of the materials by
-their creation site (the `secretRandom` in `EncryptPayload` ↦ data, `generateKey` in
-`createIntermediateKey` ↦ intermediate of the session's partition, `generateKey` in
-`loadLatestOrCreateSystemKey` ↦ system) such that in every operation on a session of partition
-`part` of every history each logged `aeadEnc k pt` has (plaintext, key) roles in
-{(payload, data), (data, intermediate part), (intermediate part, system)}. -/
-def wrap_discipline_full : Prop :=
-  ∀ (t : Int) (ops : List Op), ∃ ρ : Nat → Option Role,
-    ∀ (pre : List Op) (s p : Nat) (fl : List Fault) (post : List Op), ops = pre ++ .encrypt s p fl :: post →
-      let w := (runOps (World.init t) pre).2
-      ∀ k pt f, Call.aeadEnc k pt f ∈ (applyOp w (.encrypt s p fl)).2.log →
-        match pt with
-        | .payload _ => ρ k = some .data
-        | .key m => (ρ m = some .data ∧ ρ k = some (.intermediate (sessionCtx w s).part)) ∨
-                    (ρ m = some (.intermediate (sessionCtx w s).part) ∧ ρ k = some .system)
+* in every `encrypt` of the history, on a session of partition `part`, each AEAD encryption the SDK
+  issues has (plaintext, key) roles in {(payload, data), (data, intermediate part),
+  (intermediate part, system)}: payload bytes only under a data key, a data key only under the
+  intermediate key of *this* partition, an intermediate key only under a system key;
+* every row in the metastore at the end is well-typed (`RowOK`): a system-key row holds a
+  KMS-wrapped system material, an intermediate-key row of partition `p` holds an
+  `intermediate p` material AEAD-wrapped under a system material, and names a system key as parent
+  (rows damaged out of band carry no key).
+The KMS itself is only ever asked to encrypt on the system-key creation path
+(`tryStoreSystemKey`, the only caller of `kmsEncrypt`), with the material of the system key it has
+just generated: see `wrap_discipline_fresh` for the log-level form. -/
+theorem wrap_discipline (t : Int) (ops : List Op) :
+    ∃ ρ : Nat → Option Role,
+      (∀ (pre : List Op) (s p : Nat) (fl : List Fault) (post : List Op), ops = pre ++ .encrypt s p fl :: post →
+        let w := (runOps (World.init t) pre).2
+        ∀ k pt f, Call.aeadEnc k pt f ∈ (applyOp w (.encrypt s p fl)).2.log →
+          match pt with
+          | .payload _ => ρ k = some .data
+          | .key m => (ρ m = some .data ∧ ρ k = some (.intermediate (sessionCtx w s).part)) ∨
+                      (ρ m = some (.intermediate (sessionCtx w s).part) ∧ ρ k = some .system)) ∧
+      (∀ r, r ∈ (runOps (World.init t) ops).2.store → RowOK ρ r) := by
+  obtain ⟨ρ, _, h2, h3⟩ := (TQ.init t).runOps ops
+  refine ⟨ρ, ?_, h2.store⟩
+  intro pre s p fl post heq w k pt f hc
+  have := h3 pre s p fl post heq _ hc
+  cases pt <;> exact this
 
-/-- **wrap_discipline** (the part proved): in every `encrypt`, whatever the world and the faults,
+/-- **wrap_discipline_fresh** (a complementary, role-free form): in every `encrypt`, whatever the
+world and the faults,
 * a payload is AEAD-encrypted only under a key generated during this operation (a DRK),
 * the only keys that are ever wrapped (`aeadEnc _ (.key m)`) are keys generated during this
   operation — the DRK under the intermediate key, a newly created intermediate key under the system
   key; a key that came out of the metastore or a cache is never re-wrapped,
-and a `decrypt` issues no AEAD encryption and no KMS encryption at all.
-Missing for `wrap_discipline_full`: the typing of the *wrapping* key `k` (that the key a DRK is
-wrapped under is the intermediate key of the session's partition, and the key a new intermediate
-key is wrapped under is a system key); it needs a role-typed invariant over the key caches and the
-metastore rows, which is not done. -/
-theorem wrap_discipline_partial (w : World) :
+and a `decrypt` issues no AEAD encryption and no KMS encryption at all. -/
+theorem wrap_discipline_fresh (w : World) :
     (∀ s p fl c, c ∈ (applyOp w (.encrypt s p fl)).2.log →
       match c with
       | .aeadEnc k (.payload _) _ => w.mats ≤ k
